@@ -870,20 +870,14 @@ def check_binary_case(ctx, case):
         new_seq = [t for t in h["truth"] if t[0] in "+ "]
         if not sbs:
             lines = [t for t in h["truth"]]
-            blank_rows = sum(1 for t in lines if t[3] == "")
-            if len(shown_rows) != len(lines) - blank_rows and blank_rows == 0:
+            if len(shown_rows) != len(lines):
                 res["fail"] = ("unified:row-count", f"{len(shown_rows)} numbered rows for {len(lines)} hunk lines")
                 return res
             it = iter(shown_rows)
             for t in lines:
-                if t[3] == "":
-                    continue    # an empty context line: delta passes it through without a gutter (see known finding)
                 row = next(it, None)
-                if row is None:
-                    res["fail"] = ("unified:row-count", "fewer numbered rows than hunk lines")
-                    return res
                 ml, mr, cont, _ = row
-                if not cont[keep:].startswith(t[3]):
+                if (t[3] == "" and cont.strip(" +-") != "") or not cont[keep:].startswith(t[3]):
                     res["fail"] = ("unified:row-order", f"row {cont[:30]!r} does not start the expected line {t[3]!r}")
                     return res
                 ln = {cell_number(v) for v in cells(ml, "l", "nm")}
@@ -911,6 +905,16 @@ def check_binary_case(ctx, case):
                     exp_l = int(tl.group(2)); seen_old.append((tl.group(1), exp_l))
                 if tr and tr.group(1) in "nk":
                     exp_r = int(tr.group(3) if tr.group(1) == "k" else tr.group(2)); seen_new.append((tr.group(1), exp_r))
+                # an empty context line (input written without the leading space): both panels empty,
+                # both numbers shown; it takes its place in the line sequences checked below
+                if not tl and not tr and lcont.strip(" +-") == "" and rcont.strip(" +-") == "" and None not in ln | rn and len(ln | rn) > 0:
+                    if has_nm:
+                        exp_l = next(iter(ln)); seen_old.append(("k", exp_l))
+                    if has_np:
+                        exp_r = next(iter(rn)); seen_new.append(("k", exp_r))
+                    if not has_nm or not has_np:
+                        res["skip"] = "empty context line with a number format that hides one side"
+                        return res
                 if (has_nm and ln != {exp_l}) or (has_np and rn != {exp_r}):
                     res["fail"] = ("sbs:numbers-wrong", f"row L={lcont[:24]!r} R={rcont[:24]!r} shows old={ln} new={rn}; true old={exp_l} new={exp_r}")
                     return res
@@ -919,8 +923,8 @@ def check_binary_case(ctx, case):
                     res["fail"] = ("sbs:field-width", w)
                     return res
                 dec["numbers"].append((exp_l, exp_r))
-            want_old = [(("k" if t[0] == " " else "o"), t[1]) for t in old_seq if t[3] != ""]
-            want_new = [(("k" if t[0] == " " else "n"), t[2]) for t in new_seq if t[3] != ""]
+            want_old = [(("k" if t[0] == " " else "o"), t[1]) for t in old_seq]
+            want_new = [(("k" if t[0] == " " else "n"), t[2]) for t in new_seq]
             if seen_old != want_old or seen_new != want_new:
                 res["fail"] = ("sbs:line-sequence", f"old lines shown {seen_old[:8]}… expected {want_old[:8]}…; new shown {seen_new[:8]}… expected {want_new[:8]}…")
                 return res
